@@ -215,7 +215,7 @@ func (w *world) body(sc scenario) (*obs, func(), *harness.MemStore) {
 	// the application's option slice: OptLen options, Spare unused capacity
 	opts := make([]nodeenrollment.Option, sc.OptLen, sc.OptLen+sc.Spare)
 	for i := range opts {
-		opts[i] = []nodeenrollment.Option{nodeenrollment.WithLogger(hclog.NewNullLogger()), nodeenrollment.WithMaximumServerLedActivationTokenLifetime(time.Hour)}[i%2]
+		opts[i] = []nodeenrollment.Option{nodeenrollment.WithLogger(hclog.NewNullLogger()), nodeenrollment.WithMaximumServerLedActivationTokenLifetime(time.Hour), nodeenrollment.WithNotBeforeClockSkew(-5 * time.Minute)}[i%3]
 	}
 	inner, err := net.Listen("tcp", "127.0.0.1:0")
 	if err != nil {
@@ -426,10 +426,18 @@ func scenarios(c *engine.Ctx) []scenario {
 			}
 		}
 	}
+	// longer option lists: a copy made with append() can round its capacity up,
+	// so exact-capacity input slices of every length 3..9 are shapes of their own
+	for l := 3; l <= 9; l++ {
+		shapes = append(shapes, [2]int{l, 0})
+	}
 	for _, sh := range shapes {
 		for a := 0; a < len(kinds); a++ {
 			for b := a; b < len(kinds); b++ {
 				if !c.Thorough() && kinds[a] != kToken && kinds[b] != kToken && kinds[a] != kAuth && kinds[b] != kAuth {
+					continue
+				}
+				if sh[0] >= 3 && !((kinds[a] == kToken && kinds[b] == kToken) || (kinds[a] == kToken && kinds[b] == kAuth)) {
 					continue
 				}
 				out = append(out, scenario{Clients: []string{kinds[a], kinds[b]}, OptLen: sh[0], Spare: sh[1]})
@@ -543,7 +551,7 @@ func init() {
 	engine.Register(&engine.CheckDef{
 		ID:    "C15",
 		Level: "exploration",
-		Rule: "one real InterceptingListener over real loopback connections; 2 (thorough also 3) handler threads each running one Accept for clients of kinds {fetch by an authorized node, fetch by an unknown node, token enrollment carrying its own state, authentication with its own client state and extra protocols, authentication by an unregistered key}, for application option slices of length 0/1/2 with spare capacity 0/1/4; every schedule with at most 2 (thorough 3) preemptions over the scheduling points {every storage call, entry/exit of the fetch and certificate functions, base Accept}; oracle: each connection's (server result, reported state and protocols, client-side answer, created record's state) equals its outcome when handled alone; " +
+		Rule: "one real InterceptingListener over real loopback connections; 2 (thorough also 3) handler threads each running one Accept for clients of kinds {fetch by an authorized node, fetch by an unknown node, token enrollment carrying its own state, authentication with its own client state and extra protocols, authentication by an unregistered key}, for application option slices of length 0/1/2 with spare capacity 0/1/4 and of every length 3..9 with exact capacity; every schedule with at most 2 (thorough 3) preemptions over the scheduling points {every storage call, entry/exit of the fetch and certificate functions, base Accept}; oracle: each connection's (server result, reported state and protocols, client-side answer, created record's state) equals its outcome when handled alone; " +
 			"evaluations = schedules executed; distinct_nontrivial = scenarios explored",
 		Assumptions: []string{"code between two scheduling points of one handshake runs atomically w.r.t. the other handshakes (scheduling points are where shared state can be touched: storage and the shared option slice around the function calls); unsynchronised accesses inside those blocks are the -race companion's job", "clients are storage-independent (distinct keys and tokens), so the sequential outcome of each is order-independent"},
 		Shards:      func(c *engine.Ctx) int { return 16 },
